@@ -270,7 +270,7 @@ def shard_boundary(sh, part, parts):
     if sh.tier == 'quick':
         mine = mine[:10]
     # the tail decision itself (1024 -> dropped, 1025 -> used) is always driven, with and without preceding full batches
-    forced = [(B, t, sub, k) for B in (1500, 2047) for t in (1023, 1024, 1025, 1026) for sub in (1, 2) for k in (0, 1)]
+    forced = [(B, t, sub, k) for B in (1500, 2047) for t in (1023, 1024, 1025, 1026) for sub in (1, 2) for k in (0, 1)] + [(64, 5, s_, 3) for s_ in (1, 2, 3, 1, 2, 3, 1, 2, 3, 1, 2, 3, 1, 2)]
     mine = [(B, t, sub, None) for (B, t, sub) in mine] + forced[part::parts]
     for j, (B, t, sub, kforced) in enumerate(mine):
         k = rng.choice([0, 1, 2, 3]) if B > 64 else rng.choice([2, 5, 30])
@@ -285,7 +285,9 @@ def shard_boundary(sh, part, parts):
         n_file = target_consumed * sub + rng.randrange(sub)
         consumed_positions = [p for p in range(1, n_file + 1) if p % sub == 0]
         corrupt = {}
-        style = rng.choice(['none', 'batch-edges', 'eof', 'run', 'scattered', 'valid-quoted'])
+        style = rng.choice(['none', 'batch-edges', 'eof', 'run', 'scattered', 'valid-quoted', 'many-invalid'])
+        if kforced is not None and B == 64:
+            style = 'many-invalid'
         kinds = ['short', 'long', 'empty', 'merged', 'unclosed-quote']
         if consumed_positions and style != 'none':
             if style == 'batch-edges':
@@ -299,6 +301,9 @@ def shard_boundary(sh, part, parts):
             elif style == 'run':
                 s = rng.randrange(len(consumed_positions))
                 for p in consumed_positions[s:s + rng.randint(2, 5)]:
+                    corrupt[p - 1] = rng.choice(kinds)
+            elif style == 'many-invalid':      # more malformed rows than any bounded log buffer keeps
+                for p in rng.sample(consumed_positions, min(len(consumed_positions), rng.randint(33, 70))):
                     corrupt[p - 1] = rng.choice(kinds)
             elif style == 'scattered':
                 for p in rng.sample(consumed_positions, min(len(consumed_positions), rng.randint(1, 8))):
